@@ -332,11 +332,49 @@ def readTable (text : Bytes) : Table :=
 /-! ## `readAs(types)`: typed columns -/
 
 /-- a character of the `readAs` string: `n` (`myatof`), `s` (the text), `i` (`myatoi`); any other character but `h`
-    matches no `case` of the switch, the cell is **not appended** to the row (`skip`).  `h` (`strtoul(…, 16)`, libc)
-    is not modelled: the driver rejects it and the generator never produces it. -/
+    matches no `case` of the switch, the cell is **not appended** to the row (`skip`).  `h` is `String::hexToInt`,
+    `(unsigned) strtoul(str(), NULL, 16)` of libc, transcribed as `hexU32` below. -/
 inductive ColType where
-  | num | str | int | skip
+  | num | str | int | skip | hex
 deriving Repr, DecidableEq
+
+/-! ### `h` columns: `(unsigned) strtoul(text, NULL, 16)` then `Var(unsigned)` -/
+
+def hexVal (c : UInt8) : Option Nat :=
+  if 48 ≤ c ∧ c ≤ 57 then some (c.toNat - 48)
+  else if 97 ≤ c ∧ c ≤ 102 then some (c.toNat - 87)
+  else if 65 ≤ c ∧ c ≤ 70 then some (c.toNat - 55)
+  else none
+
+/-- the digit loop of `strtoul` (exact; the saturation is applied by `hexU32`) -/
+def hexLoop : Bytes → Nat → Nat
+  | [], y => y
+  | c :: t, y => match hexVal c with
+    | some d => hexLoop t (16 * y + d)
+    | none => y
+
+/-- `isspace` in the C locale -/
+def isBlankC (c : UInt8) : Bool := c == 32 || (9 ≤ c && c ≤ 13)
+
+/-- optional sign of `strtoul`: `-` negates the `unsigned long` result -/
+def hexSign : Bytes → Bool × Bytes
+  | 45 :: t => (true, t)
+  | 43 :: t => (false, t)
+  | s => (false, s)
+
+/-- optional `0x` / `0X`, consumed only when a hex digit follows -/
+def skip0x : Bytes → Bytes
+  | 48 :: x :: h :: t => if (x == 120 || x == 88) && (hexVal h).isSome then h :: t else 48 :: x :: h :: t
+  | s => s
+
+/-- `String::hexToInt()` on a NUL-free text, 64-bit `unsigned long`: blanks, sign, `0x`, hex digits; a value above
+    `ULONG_MAX` gives `ULONG_MAX` (whatever the sign); then the cast to `unsigned` -/
+def hexU32 (s : Bytes) : Nat :=
+  let r := hexSign (s.dropWhile isBlankC)
+  let v := hexLoop (skip0x r.2) 0
+  if v ≥ 18446744073709551616 then 4294967295
+  else if r.1 then (4294967296 - v % 4294967296) % 4294967296 else v % 4294967296
+
 
 /-- `while (c = *s++, c >= '0' && c <= '9') y = 10 * y + unsigned(c - '0');` with `unsigned y` -/
 def atoiDigits : Bytes → Nat → Nat
@@ -359,6 +397,9 @@ def typedCell (dec : UInt8) : ColType → Bytes → Option RCell
   | .str, v => some (.str v)
   | .int, v => some (.int (atoi32 v))
   | .skip, _ => none
+  -- `Var(unsigned y)`: `INT` below 2^31, else `NUMBER` with `double(y)` (exact)
+  | .hex, v => let y := hexU32 v
+    some (if y < 2147483648 then .int y else .num ⟨false, y, 0⟩)
 
 /-- the `foreach2(int i, String& v, row)` loop of `nextRow`: `if (ntypes > i) switch (_types[i]) … else` inference -/
 def typedRow (dec : UInt8) : List ColType → List Bytes → List RCell
